@@ -1,4 +1,5 @@
 //vp:target x/lend/keeper/zz_vp_c12_lend.go
+//vp:props C12 C08
 //vp:load ./app
 //go:build verif
 
@@ -19,9 +20,13 @@ import (
 const vpLK = "(github.com/comdex-official/comdex/x/lend/keeper.Keeper)."
 
 func vpLendWorld() (Keeper, sdk.Context) {
-	for _, f := range []string{"IterateBorrow", "IterateLends", "VerifyCollateralizationRatio", "CalculateCollateralizationRatio",
-		"UpdateBorrowStats", "UpdateLendStats", "CheckSupplyCap", "CheckIsolatedModeForBorrow", "UpdateReserveAmtFromRepayments",
-		"ReBalanceStableRates", "GetAverageBorrowRate", "CheckBorrowersLiquidity"} {
+	return vpLendWorldWith("UpdateBorrowStats", "UpdateLendStats", "UpdateReserveAmtFromRepayments")
+}
+
+// the interest / rate / oracle helpers are always contract stubs; extra names the bookkeeping helpers to stub as well
+func vpLendWorldWith(extra ...string) (Keeper, sdk.Context) {
+	for _, f := range append([]string{"IterateBorrow", "IterateLends", "VerifyCollateralizationRatio", "CalculateCollateralizationRatio",
+		"CheckSupplyCap", "CheckIsolatedModeForBorrow", "ReBalanceStableRates", "GetAverageBorrowRate", "CheckBorrowersLiquidity"}, extra...) {
 		zzvp.Stub(vpLK + f)
 	}
 	var k Keeper
